@@ -10,14 +10,16 @@ INVARIANTS = ["RawStatistics", "AllInMeansAllIn", "EntryPathIrrelevant"]
 def run(tier, seed):
     ctx = CheckContext("C14", tier, seed)
     ctx.invariants = INVARIANTS
-    cfg = "MC_Hist1D_quick" if tier == "quick" else "MC_Hist1D_thorough"
+    if tier == "thorough":
+        ctx.model_check("MC_Hist1D_thorough", dump=False)
+    cfg = "MC_Hist1D_quick" if tier == "quick" else "MC_Hist1D_mid"
     _res, g = ctx.model_check(cfg, required_actions=["NewEmpty", "Construct", "Fill", "FillN"])
     combos = [("dyadic", "int", 0), ("neg", "half", 1)]
     if tier == "thorough":
         combos += [("int", "npint", 2), ("dyadic", "quarter32", 3), ("neg", "float1", 0)]
     for pe, we, sp in combos:
         ctx.replay(g, Hist1DAdapter(POS[pe], WTS[we], spelling=sp), VIEW, label=f"1D:{pe}/{we}/sp{sp}",
-                   edge_budget=60000 if tier == "quick" else 400000)
+                   edge_budget=35000 if tier == "quick" else 400000)
     pool_part(ctx, tier)
     ctx.assumptions = ["statistics are compared on affine dyadic embeddings only, where float sums are exact",
                        "variance compared within 4 eps of its operands' scale (two roundings); mean exactly"]
